@@ -182,16 +182,19 @@ impl Override {
         if out_nmoscs.next().is_some() {
             bail!("override must contain exactly one output non-modifier key; found multiple");
         }
-        let mut in_mod_oscs = in_oscs
-            .iter()
-            .copied()
-            .filter(|osc| mask_for_key(*osc).is_some())
-            .collect::<Vec<_>>();
-        let mut out_mod_oscs = out_oscs
-            .iter()
-            .copied()
-            .filter(|osc| mask_for_key(*osc).is_some())
-            .collect::<Vec<_>>();
+        // A modifier that is listed twice counts once: the number of input modifiers decides which
+        // of several matching overrides is used.
+        let distinct_mods = |oscs: &[OsCode]| {
+            let mut mods: Vec<OsCode> = vec![];
+            for osc in oscs.iter().copied() {
+                if mask_for_key(osc).is_some() && !mods.contains(&osc) {
+                    mods.push(osc);
+                }
+            }
+            mods
+        };
+        let mut in_mod_oscs = distinct_mods(in_oscs);
+        let mut out_mod_oscs = distinct_mods(out_oscs);
         in_mod_oscs.shrink_to_fit();
         out_mod_oscs.shrink_to_fit();
         Ok(Self {
